@@ -89,6 +89,8 @@ func firstStringConst(info *types.Info, e ast.Expr) (string, bool) {
 func c04(c *core.Check) {
 	p := c.Prog
 	c.Explain = "Structural necessary conditions of CSS defaulting, decided on the type-checked source: the per-property tables (ids, names, initial values, accessors, inherited set, validators, computers) agree with each other and with CSS 2.1 Appendix F; every value that can enter a style slot has the slot's type; the unit table holds the fixed CSS ratios and length_ covers every unit a validator can emit; the inherit/initial skeleton of cascadeValue and AnonymousStyle.Get; which font size each relative unit is multiplied by (polynomial folding of length_); the root never dereferences its missing parent. Does not decide pending var() paths, caching order or font metrics."
+	c04ComputedUnits(c)
+	c04LineHeight(c)
 	c.Assume = []string{"float rounding is outside the abstraction", "properties later than CSS 2.1 are only required to be present in every table; their inheritance flag is not judged"}
 
 	consts := p.ConstsOfType("css/properties", "KnownProp")
@@ -1256,5 +1258,93 @@ func parentNilGuard(c *core.Check, r *core.Rule) {
 				r.Fail(key, p.Pos(in.Pos()), "reachable with parentStyle possibly nil (root element): "+cex)
 			}
 		})
+	}
+}
+
+// c04ComputedUnits: the dimensions built by the computer functions carry a computed unit.
+func c04ComputedUnits(c *core.Check) {
+	p := c.Prog
+	r := c.Rule("R10", "every dimension the computer functions of html/tree build with a constant unit carries a computed unit (px, % or the unit-less scalar): an absolute or font-relative unit written here would skip the conversion to px that every other length goes through", 6)
+	unitName := map[int64]string{}
+	for v, k := range p.ConstsOfType("css/properties", "Unit") {
+		unitName[v] = k.Name()
+	}
+	allowed := map[string]bool{"Px": true, "Perc": true, "Scalar": true}
+	n := 0
+	for _, fn := range p.FuncsOfPkg("html/tree") {
+		if !strings.HasSuffix(p.Fset.Position(fn.Pos()).Filename, "computed_values.go") {
+			continue
+		}
+		core.Instrs(fn, func(in ssa.Instruction) {
+			st, ok := in.(*ssa.Store)
+			if !ok {
+				return
+			}
+			fa, ok := st.Addr.(*ssa.FieldAddr)
+			if !ok || core.FieldName(fa) != "Unit" {
+				return
+			}
+			k, ok := core.ConstInt(st.Val)
+			if !ok {
+				return
+			}
+			n++
+			name := unitName[k]
+			r.Cond(allowed[name], core.FuncName(fn)+" | "+p.StmtTextAt(fn, st.Pos())+" | unit", p.Pos(st.Pos()), "unit "+name, "a computed value is built with the unit "+name+", which no later step converts to px")
+		})
+	}
+	if n < 6 {
+		r.Unknown("constant units in computed_values.go", "-", fmt.Sprintf("%d stores of a constant unit found, 9 on the tree this rule was written for", n))
+	}
+}
+
+// c04LineHeight folds the line-height computer for a percentage: the computed value is that percentage of the
+// element's own computed font size, in px (CSS 2.1 §10.8.1: a percentage computes to an absolute length, so that
+// children inherit the length, not the factor).
+func c04LineHeight(c *core.Check) {
+	p := c.Prog
+	r := c.Rule("R11", "the line-height computer, folded for a percentage value v%: the computed value is v/100 × the element's own computed font size, in px (children inherit this length, not the factor); a number stays a unit-less factor", 2)
+	fn := p.Fn("html/tree", "lineHeight")
+	getFontSize := p.Method("html/tree", "ComputedStyle", "GetFontSize")
+	if fn == nil || getFontSize == nil || len(fn.Params) != 3 {
+		r.Anchor("html/tree.lineHeight")
+		return
+	}
+	unitVal := map[string]int64{}
+	for v, k := range p.ConstsOfType("css/properties", "Unit") {
+		unitVal[k.Name()] = v
+	}
+	dimOrS := p.Obj("css/properties", "DimOrS").Type()
+	dimT := p.Obj("css/properties", "Dimension").Type()
+	for _, tc := range []struct {
+		unit, wantUnit string
+		want           core.Poly
+	}{
+		{"Perc", "Px", core.SymP("v").Mul(core.SymP("ownFontSize")).Mul(core.PolyConst(big.NewRat(1, 100)))},
+		{"Scalar", "Scalar", core.SymP("v")},
+	} {
+		key := "lineHeight | unit " + tc.unit
+		f := &core.Folder{MaxDepth: 3}
+		f.Call = func(_ *core.Folder, call *ssa.Call, args []core.AV) (core.AV, bool) {
+			if call.Common().StaticCallee() == getFontSize {
+				return core.StructAV(dimOrS, map[string]core.AV{"Dimension": core.StructAV(dimT, map[string]core.AV{"Value": core.SymP("ownFontSize"), "Unit": core.Num(unitVal["Px"])})}), true
+			}
+			return nil, false
+		}
+		value := core.StructAV(dimOrS, map[string]core.AV{"S": core.StrV(""), "Dimension": core.StructAV(dimT, map[string]core.AV{"Value": core.SymP("v"), "Unit": core.Num(unitVal[tc.unit])})})
+		comp := core.SymOf(fn.Params[0].Type(), "c")
+		res, err := f.Fold(fn, []core.AV{comp, core.Num(0), value})
+		if err != nil || len(res) != 1 {
+			r.Unknown(key, p.Pos(fn.Pos()), fmt.Sprintf("could not be folded: %v", err))
+			continue
+		}
+		val, ok1 := core.FieldAV(res[0], dimOrS, "Dimension", "Value").(core.Poly)
+		un, ok2 := core.FieldAV(res[0], dimOrS, "Dimension", "Unit").(core.Poly)
+		if !ok1 || !ok2 {
+			r.Fail(key, p.Pos(fn.Pos()), "the result is not a dimension: "+core.AVString(res[0]))
+			continue
+		}
+		okU := un.Equal(core.Num(unitVal[tc.wantUnit]))
+		r.Cond(val.Equal(tc.want) && okU, key, p.Pos(fn.Pos()), "computed value "+val.String()+" "+tc.wantUnit, fmt.Sprintf("computed value %s (unit constant %s), CSS 2.1 gives %s in %s", val.String(), un.String(), tc.want.String(), tc.wantUnit))
 	}
 }
